@@ -776,6 +776,19 @@ def install_more_extras(eng):
         return call_closure(eng, st, callee, args[1], [], lambda s2, r: r)
     S(r"^Option::<.*>::or_else::<", s_or_else)
 
+    def s_get_or_insert(eng, st, callee, args, dty):
+        r = args[0]
+        v = conc(eng, st, deref_ref(eng, st, r), callee)
+        if v.vname == "None":
+            v = some(args[1])
+            eng.write(st, r.cell, r.path, v)
+        else:
+            rr = eng.drop_value(st, args[1])
+            if rr is not None:
+                raise EngineAbort("forking drop in get_or_insert")
+        return Outcome(RefV(Cell(v.fields[0])))
+    S(r"^Option::<.*>::(get_or_insert|insert)$", s_get_or_insert)
+
     def s_unwrap_or_default(eng, st, callee, args, dty):
         outs = []
         for cond, v in variants(eng, st, args[0], None):
